@@ -21,6 +21,7 @@ Definition numSpecials : Z := 17%Z.
 Definition sites : list site :=
   [ {| s_pkg := "lexer"; s_file := "lexer.go"; s_func := "*Lexer.scanRegex"; s_kind := SKPanic; s_ord := 0; s_arg := AKMessage; s_text := "panic(""ScanRegex should only be called after DIV or DIV_ASSIGN token"")" |};
     {| s_pkg := "internal/ast"; s_file := "ast.go"; s_func := "*InExpr.String"; s_kind := SKIndex; s_ord := 0; s_arg := AKLenChecked; s_text := "e.Index[0]" |};
+    {| s_pkg := "internal/ast"; s_file := "ast.go"; s_func := "formatString"; s_kind := SKIndex; s_ord := 0; s_arg := AKLenChecked; s_text := "s[0]" |};
     {| s_pkg := "internal/ast"; s_file := "walk.go"; s_func := "Walk"; s_kind := SKPanic; s_ord := 0; s_arg := AKMessage; s_text := "panic(fmt.Sprintf(""ast.Walk: unexpected node type %T"", n))" |};
     {| s_pkg := "parser"; s_file := "parser.go"; s_func := "ParseProgram"; s_kind := SKRecover; s_ord := 0; s_arg := AKOther; s_text := "recover()" |};
     {| s_pkg := "parser"; s_file := "parser.go"; s_func := "ParseProgram"; s_kind := SKAssert; s_ord := 0; s_arg := AKOther; s_text := "r.(*ast.PositionError)" |};
@@ -67,9 +68,10 @@ Definition sites : list site :=
     {| s_pkg := "internal/resolver"; s_file := "resolve.go"; s_func := "*mainVisitor.Visit"; s_kind := SKIndex; s_ord := 2; s_arg := AKLenChecked; s_text := "n.Args[0]" |};
     {| s_pkg := "internal/resolver"; s_file := "resolve.go"; s_func := "*mainVisitor.Visit"; s_kind := SKPanic; s_ord := 0; s_arg := AKPosError; s_text := "panic(ast.PosErrorf(n.Pos, ""can't call local variable %q as function""," |};
     {| s_pkg := "internal/resolver"; s_file := "resolve.go"; s_func := "*mainVisitor.Visit"; s_kind := SKPanic; s_ord := 1; s_arg := AKPosError; s_text := "panic(ast.PosErrorf(n.Pos, ""undefined function %q"", n.Name))" |};
-    {| s_pkg := "internal/resolver"; s_file := "resolve.go"; s_func := "*mainVisitor.Visit"; s_kind := SKPanic; s_ord := 2; s_arg := AKPosError; s_text := "panic(ast.PosErrorf(n.Pos, ""%q called with more arguments than declare" |};
-    {| s_pkg := "internal/resolver"; s_file := "resolve.go"; s_func := "*mainVisitor.Visit"; s_kind := SKPanic; s_ord := 3; s_arg := AKPosError; s_text := "panic(ast.PosErrorf(n.Pos, ""can't pass scalar %s as array param"", arg)" |};
-    {| s_pkg := "internal/resolver"; s_file := "resolve.go"; s_func := "*mainVisitor.Visit"; s_kind := SKPanic; s_ord := 4; s_arg := AKPosError; s_text := "panic(ast.PosErrorf(varExpr.Pos, ""can't pass %s %q as %s param"", varIn" |};
+    {| s_pkg := "internal/resolver"; s_file := "resolve.go"; s_func := "*mainVisitor.Visit"; s_kind := SKPanic; s_ord := 2; s_arg := AKPosError; s_text := "panic(ast.PosErrorf(n.Pos, ""native function %q is not a function"", n.N" |};
+    {| s_pkg := "internal/resolver"; s_file := "resolve.go"; s_func := "*mainVisitor.Visit"; s_kind := SKPanic; s_ord := 3; s_arg := AKPosError; s_text := "panic(ast.PosErrorf(n.Pos, ""%q called with more arguments than declare" |};
+    {| s_pkg := "internal/resolver"; s_file := "resolve.go"; s_func := "*mainVisitor.Visit"; s_kind := SKPanic; s_ord := 4; s_arg := AKPosError; s_text := "panic(ast.PosErrorf(n.Pos, ""can't pass scalar %s as array param"", arg)" |};
+    {| s_pkg := "internal/resolver"; s_file := "resolve.go"; s_func := "*mainVisitor.Visit"; s_kind := SKPanic; s_ord := 5; s_arg := AKPosError; s_text := "panic(ast.PosErrorf(varExpr.Pos, ""can't pass %s %q as %s param"", varIn" |};
     {| s_pkg := "internal/compiler"; s_file := "compiler.go"; s_func := "Compile"; s_kind := SKRecover; s_ord := 0; s_arg := AKOther; s_text := "recover()" |};
     {| s_pkg := "internal/compiler"; s_file := "compiler.go"; s_func := "Compile"; s_kind := SKAssert; s_ord := 0; s_arg := AKOther; s_text := "r.(*compileError)" |};
     {| s_pkg := "internal/compiler"; s_file := "compiler.go"; s_func := "Compile"; s_kind := SKIndex; s_ord := 0; s_arg := AKLenChecked; s_text := "action.Pattern[0]" |};
@@ -117,7 +119,7 @@ Definition sites : list site :=
     {| s_pkg := "interp"; s_file := "functions.go"; s_func := "fromNative"; s_kind := SKPanic; s_ord := 0; s_arg := AKMessage; s_text := "panic(fmt.Sprintf(""unexpected return slice: %s"", v.Type().Elem().Kind(" |};
     {| s_pkg := "interp"; s_file := "functions.go"; s_func := "fromNative"; s_kind := SKPanic; s_ord := 1; s_arg := AKMessage; s_text := "panic(fmt.Sprintf(""unexpected return type: %s"", v.Kind()))" |};
     {| s_pkg := "interp"; s_file := "functions.go"; s_func := "*interp.sprintf"; s_kind := SKIndex; s_ord := 0; s_arg := AKLenChecked; s_text := "s[0]" |};
-    {| s_pkg := "interp"; s_file := "interp.go"; s_func := "<package-level var>"; s_kind := SKMustCompile; s_ord := 0; s_arg := AKLiteral; s_text := "regexp.MustCompile(`^([_a-zA-Z][_a-zA-Z0-9]*)=(.*)`)" |};
+    {| s_pkg := "interp"; s_file := "interp.go"; s_func := "<package-level var>"; s_kind := SKMustCompile; s_ord := 0; s_arg := AKLiteral; s_text := "regexp.MustCompile(`(?s)^([_a-zA-Z][_a-zA-Z0-9]*)=(.*)`)" |};
     {| s_pkg := "interp"; s_file := "interp.go"; s_func := "*interp.execActions"; s_kind := SKIndex; s_ord := 0; s_arg := AKLenChecked; s_text := "action.Pattern[0]" |};
     {| s_pkg := "interp"; s_file := "interp.go"; s_func := "*interp.execActions"; s_kind := SKIndex; s_ord := 1; s_arg := AKLenChecked; s_text := "action.Pattern[0]" |};
     {| s_pkg := "interp"; s_file := "interp.go"; s_func := "*interp.execActions"; s_kind := SKIndex; s_ord := 2; s_arg := AKLenChecked; s_text := "action.Pattern[1]" |};
@@ -131,6 +133,7 @@ Definition sites : list site :=
     {| s_pkg := "interp"; s_file := "interp.go"; s_func := "parseInputMode"; s_kind := SKIndex; s_ord := 1; s_arg := AKLenChecked; s_text := "fields[0]" |};
     {| s_pkg := "interp"; s_file := "interp.go"; s_func := "parseOutputMode"; s_kind := SKIndex; s_ord := 0; s_arg := AKLenChecked; s_text := "fields[0]" |};
     {| s_pkg := "interp"; s_file := "interp.go"; s_func := "parseOutputMode"; s_kind := SKIndex; s_ord := 1; s_arg := AKLenChecked; s_text := "fields[0]" |};
+    {| s_pkg := "interp"; s_file := "io.go"; s_func := "*interp.writeCSV"; s_kind := SKIndex; s_ord := 0; s_arg := AKLenChecked; s_text := "fields[0]" |};
     {| s_pkg := "interp"; s_file := "io.go"; s_func := "*interp.getOutputStream"; s_kind := SKPanic; s_ord := 0; s_arg := AKMessage; s_text := "panic(fmt.Sprintf(""unexpected redirect type %s"", redirect))" |};
     {| s_pkg := "interp"; s_file := "io.go"; s_func := "*interp.execShell"; s_kind := SKIndex; s_ord := 0; s_arg := AKOther; s_text := "p.shellCommand[0]" |};
     {| s_pkg := "interp"; s_file := "io.go"; s_func := "*interp.newScanner"; s_kind := SKIndex; s_ord := 0; s_arg := AKLenChecked; s_text := "p.recordSep[0]" |};
